@@ -951,7 +951,7 @@ func c03inexpr(c *runner.Ctx, i int) {
 		b := sess.NewBatch(gocql.LoggedBatch)
 		b.Query(stmt, gocql.NamedValue("a", 1), gocql.NamedValue("b", 2))
 		err := sess.ExecuteBatch(b)
-		if n := arrivals(cqlref.OpBatch); n > 0 && version >= 3 {
+		if n := arrivals(cqlref.OpBatch); n > 0 {
 			c.Violation(fmt.Sprintf("C03:inexpressible:named-values-in-batch:v%d", version), fmt.Sprintf("a batch with named values reached the wire (%d BATCH frames, Exec returned %v)", n, err), wit)
 		}
 	case 2: // batch on protocol 1
